@@ -66,6 +66,8 @@ func main() {
 		err = traceACL(o)
 	case "db":
 		err = traceDB(o)
+	case "http":
+		err = traceHTTP(o)
 	case "fs":
 		err = traceFS(o)
 	case "fschild":
